@@ -66,7 +66,8 @@ class C06(Prop):
             "ports, wire/reg ranges [msb:lsb] with arbitrary lsb, multi-name declarations, implicit nets, "
             "named and positional port maps, connection expressions = identifier, bit-select, part-select, "
             "concatenation, 1'b0/1'b1, empty .p(), widths up to the port width (partial, LSB aligned), "
-            "escaped identifiers, line/block comments incl. a trailing one, parameters #(.K(V)), (* *) "
+            "escaped identifiers, header aliases .p({a, b}) with single-bit items, line/block comments incl. a "
+            "trailing one, parameters #(.K(V)), (* *) "
             "attributes in one or several groups, equal-width assign; oracle: bit-level view of the parsed "
             "netlist (definitions + library, ports dir/width/base, cables range, instance.port bit k <-> "
             "bit k of the expression from the LSB end, assigns, parameters, attributes, primitive flag, top "
